@@ -394,6 +394,16 @@ func (d *dbm) noteLen(x ast.Expr) {
 				d.addLE(nt, nk, lt, 0)
 			}
 		}
+		// a helper that returns x[k:n]: len(result) == n - k
+		if d.g != nil {
+			if hi, lo, ok := d.g.P.resultLenOf(d.info, s, 0); ok {
+				if nt, nk, ok := d.term(hi); ok {
+					d.noteTerm(hi)
+					d.addLE(lt, 0, nt, nk-lo)
+					d.addLE(nt, nk-lo, lt, 0)
+				}
+			}
+		}
 	case *ast.BasicLit:
 		if s.Kind == token.STRING {
 			if v, err := strconv.Unquote(s.Value); err == nil {
